@@ -8,4 +8,5 @@ INVARIANT Report
 INVARIANT SharedSource
 INVARIANT PointFeeds
 INVARIANT PGFrameFed
+INVARIANT ReadsOwnOutput
 CHECK_DEADLOCK FALSE
